@@ -503,8 +503,8 @@ func runC(c CaseC) vt.Verdict {
 
 func TestProp(t *testing.T) {
 	vt.Run(t, prop,
-		vt.Sub[CaseA]{Prop: prop, Name: "config", Gen: genA, Run: runA, Classify: classifyA}.WithBudget(150, 3000),
-		vt.Sub[CaseB]{Prop: prop, Name: "selector", Gen: genB, Run: runB, Classify: classifyB}.WithBudget(8000, 150000),
-		vt.Sub[CaseC]{Prop: prop, Name: "detector", Gen: genC, Run: runC, Classify: func(c CaseC) (bool, []string) { return len(c.Ops) >= 20, nil }}.WithBudget(600, 15000),
+		vt.Sub[CaseA]{Prop: prop, Name: "config", Gen: genA, Run: runA, Classify: classifyA}.WithBudget(500, 3000),
+		vt.Sub[CaseB]{Prop: prop, Name: "selector", Gen: genB, Run: runB, Classify: classifyB}.WithBudget(20000, 150000),
+		vt.Sub[CaseC]{Prop: prop, Name: "detector", Gen: genC, Run: runC, Classify: func(c CaseC) (bool, []string) { return len(c.Ops) >= 20, nil }}.WithBudget(2000, 15000),
 	)
 }
